@@ -111,7 +111,11 @@ func genMatch(r *wire.Rng, stream string, gw, malformed bool) *networking.HTTPMa
 		if m.Headers == nil {
 			m.Headers = map[string]*networking.StringMatch{}
 		}
-		m.Headers[wire.Pick(r, hdrNames)] = genValueSM(r, false, true, malformed)
+		name := wire.Pick(r, hdrNames)
+		if r.Chance(1, 20) {
+			name = wire.Pick(r, []string{":method", ":authority", ":scheme"}) // pseudo-headers are valid keys
+		}
+		m.Headers[name] = genValueSM(r, false, true, malformed)
 	}
 	nw := []int{0, 0, 0, 1, 1, 2}[r.Intn(6)]
 	for i := 0; i < nw; i++ {
